@@ -413,33 +413,32 @@ def main(run):
     probe = lib.build_verifprobe(run)
     run.log("built")
 
-    ncalls, tm = (transfer_l1.check_transfer(run, probe) if run.thorough()
-                  else transfer_l1.check_transfer(run, probe, n_random=400, maxlen=3))
-    for m in tm[:3]:
-        run.violation({"kind": "correspondence-broken", "correspondence": "L1:transfer vs Model/Transfer.v", "call": m},
-                      no_input=True)
-    dcalls, dm = ctordirective_l1.check_directives(run, probe, thorough=run.thorough())
-    for m in dm[:3]:
-        run.violation({"kind": "correspondence-broken",
-                       "correspondence": "L1:constructor directive parsers vs Model/CtorDirective.v", "call": m},
-                      no_input=True)
-    run.log("L1 done")
+    # L1 (case transforms + directive parsers) runs beside the L2 stream, with its own random stream
+    l1 = ctoracc.start_l1(run, probe)
     outcome = run.replay_findings(finding_handlers(run, shoot))
     run.log("findings replayed")
 
-    npk = 700 if run.thorough() else 56
+    npk = 600 if run.thorough() else 50
     pkgs, gstats = gen_packages(run, npk)
     obs, mod = observe(run, shoot, accbin, "c03mod", pkgs)
     pkgdefs, rendered = render_cases(pkgs, obs)
     run.log("cases: %d packages" % len(rendered))
-    mism = ctorlib.coq_shards(run, "c03cases", pkgdefs, rendered, CORR, "gmismatches", "gcase", shard=8)
+    mism = ctorlib.coq_shards(run, "c03cases", pkgdefs, rendered, CORR, "gmismatches", "gcase", shard=10)
     verdicts = dict(mism)
     reported = 0
     for idx, v in sorted(mism, key=lambda iv: (iv[1] != 2, iv[0])):
         if v in (1, 2, 4) and reported < 5:
             run.violation(replay_record(pkgs[idx], obs, v, "c03mod"), no_input=(v != 2))
             reported += 1
-    if not proof_ok and reported == 0:
+    ncalls, tm, dcalls, dm = l1.result()
+    for m in tm[:3]:
+        run.violation({"kind": "correspondence-broken", "correspondence": "L1:transfer vs Model/Transfer.v", "call": m},
+                      no_input=True)
+    for m in dm[:3]:
+        run.violation({"kind": "correspondence-broken",
+                       "correspondence": "L1:constructor directive parsers vs Model/CtorDirective.v", "call": m},
+                      no_input=True)
+    if not proof_ok and reported == 0 and not tm and not dm:
         run.proof_failure_violation()
 
     feat, nontrivial = {}, set()
